@@ -188,7 +188,14 @@ where
         // is reloaded, because all `NoneLayerMarker` pointers that we return
         // actually point to the global static singleton `NoneLayerMarker`,
         // rather than to a field inside the lock.
-        if id == TypeId::of::<subscribe::NoneLayerMarker>() {
+        //
+        // The per-subscriber-filter marker is forwarded for the same reason:
+        // it is only ever tested for presence (to learn that the wrapped
+        // subscriber is a `Filtered`, whose filter must not be treated as a
+        // global one), and never dereferenced.
+        if id == TypeId::of::<subscribe::NoneLayerMarker>()
+            || crate::filter::is_psf_downcast_marker(id)
+        {
             #[cfg(feature = "verif-hooks")]
             __verif_wait(&self.inner, false);
             return try_lock!(self.inner.read(), else return None).downcast_raw(id);
